@@ -219,6 +219,9 @@ def check_overflow(ctx, db):
 def run(ctx):
     db = ctx.db
     _DB['db'] = db
+    from . import C14, C20
+    C14.check_translation_invariance(ctx, db)   # polygon_to_path orients operands by the sign of signed_area
+    C20.check_heap(ctx, db)                     # link_holes orders the holes of a contour with gdstk::sort
     check_conversions(ctx, db)
     check_boolean(ctx, db)
     check_wrappers(ctx, db)
